@@ -107,10 +107,11 @@ func (w wspec) String() string {
 
 // cast is the whole case.
 type cast struct {
-	Procs   int    // GOMAXPROCS of the concurrent phase
-	Rounds  int    // how many times the concurrent phase is run
-	AeadKey uint64 // the keys of the cast's shared AEADs are expanded from it (the same keys in the solo and in the concurrent phase)
-	Workers []wspec
+	Procs      int    // GOMAXPROCS of the concurrent phase
+	Rounds     int    // how many times the concurrent phase is run
+	AeadKey    uint64 // the keys of the cast's shared AEADs are expanded from it (the same keys in the solo and in the concurrent phase)
+	Workers    []wspec
+	CronFamily string // if set, the cron workers of the cast parse this one expression under different zones (informational: the specs are in Workers)
 }
 
 func (c cast) encode() string {
@@ -385,6 +386,31 @@ func genCast(rt *rapid.T, procs []int) cast {
 			}
 		}
 		c.Workers = append(c.Workers, w)
+	}
+	// Related inputs: values that a package may intern, cache or precompute once are requested by several workers at
+	// the same time in DIFFERENT variants. For cron: the same expression (a fixed descriptor or one field list) under
+	// different time zones and through different parsers.
+	if rapid.IntRange(0, 2).Draw(rt, "cronFamily") == 0 {
+		base := rapid.SampledFrom([]string{"@yearly", "@annually", "@monthly", "@weekly", "@daily", "@midnight", "@hourly", "@every 90s", "0 12 * * *", "30 4 1 * *", "15 */6 * * MON"}).Draw(rt, "familySpec")
+		z := rapid.IntRange(0, len(cronZones)-2).Draw(rt, "familyZone")
+		members := 0
+		for i := range c.Workers {
+			w := &c.Workers[i]
+			if w.Kind != kCron {
+				continue
+			}
+			// parsers 0 (ParseStandard) and the descriptor-enabled own parser understand all of the above (five fields + descriptors)
+			w.Parser = []int{0, 2}[members%2]
+			zone := cronZones[(z+members)%(len(cronZones)-1)]
+			w.Spec = []string{"TZ=", "CRON_TZ="}[members%2] + zone + " " + base
+			if members%4 == 3 {
+				w.Spec = base // no prefix: the parser's default location
+			}
+			members++
+		}
+		if members >= 2 {
+			c.CronFamily = base
+		}
 	}
 	return c
 }
